@@ -141,6 +141,8 @@ var (
 		{typ: reflect.TypeOf(int8(0)), ptr: true, rep: true, encs: []string{""}},
 		{typ: reflect.TypeOf(int16(0)), ptr: true, rep: true, encs: []string{""}},
 		{typ: reflect.TypeOf(uint16(0)), ptr: true, rep: true, encs: []string{"", "dict"}},
+		{typ: reflect.TypeOf([20]byte{}), ptr: true, rep: true, encs: []string{"", "dict", "plain"}},
+		{typ: reflect.TypeOf([32]byte{}), ptr: true, rep: true, encs: []string{"", "dict", "split"}},
 	}
 	dynCodecs = []string{"", "", "", "", "snappy", "gzip", "zstd", "lz4", "brotli", "uncompressed"}
 )
